@@ -20,7 +20,7 @@
   Second half (aliasing): *partial by nature* — see §3.
 -/
 import GraphiqModel.Proofs.Wire
-import GraphiqModel.Proofs.CommuteComplete
+import GraphiqModel.Proofs.CommuteTableau
 namespace Graphiq.C13
 open Graphiq Graphiq.Wire
 
@@ -265,6 +265,54 @@ theorem compiled_run_exists_after_rewrite (c c' : Circuit) (hgood : c.Good) (har
   · show (TabSpec.gstate s.t).G P ↔ (TabSpec.gstate s'.t).G P
     rw [hg]
 
+/-! ## 2d. gate-only circuits: literally the same tableau
+
+  For circuits without measurements the statement holds for the *tables*, not only for the groups they generate: the row
+  maps of gates on disjoint qubits commute pointwise and the compiler's tabulation identifies tables that agree on the
+  qubits' sites. -/
+
+/-- unitary-gate steps of the stabilizer compile loop on disjoint registers commute literally (same run state, same table,
+    destabilizers included) -/
+theorem gate_steps_on_disjoint_registers_commute (ne np : Nat) (a b : SOp) (h : ∀ r, r ∈ a.regs → r ∉ b.regs)
+    (s : Commute.TSt ne np) :
+    Commute.appTG ne np a (Commute.appTG ne np b s) = Commute.appTG ne np b (Commute.appTG ne np a s) :=
+  Commute.appTG_comm ne np a b h s
+
+/-- **a gate-only circuit compiles to literally the same run state (the same Clifford tableau, destabilizer and
+    stabilizer rows and signs, entry by entry) along every topological order** -/
+theorem gate_only_compile_independent_of_topological_order (c : Circuit) (hgood : c.Good) (har : Commute.ArityOk c)
+    (hgates : Commute.GateOnly c) (seq1 seq2 : List Nat) (hl1 : c.isLinearExtension seq1 = true)
+    (hl2 : c.isLinearExtension seq2 = true) (d : Det) (script : List Bool) :
+    stabRun c.ne c.np d script ((c.sops seq1).map Commute.toCOp) =
+      stabRun c.ne c.np d script ((c.sops seq2).map Commute.toCOp) := by
+  rw [Commute.stabRun_eq_runSeq c hgood har hgates seq1 d script c.ne c.np rfl rfl,
+    Commute.stabRun_eq_runSeq c hgood har hgates seq2 d script c.ne c.np rfl rfl]
+  have e := compile_independent_of_topological_order (Commute.appTG c.ne c.np) (Commute.appTG_comm c.ne c.np) c hgood
+    seq1 seq2 hl1 hl2 ⟨some { t := Tab.ket0 (c.ne + c.np), writes := [], script := script, rand := [], outs := [] },
+      fun s' h => by cases h; rfl⟩
+  have e' := congrArg Subtype.val e
+  exact (Commute.runSeq_appTG_val _ _ _ _).symm.trans (e'.trans (Commute.runSeq_appTG_val _ _ _ _))
+
+/-- **a gate-only circuit and its copy / unwrapped / grouped / identity-free / empty-noise-map version compile to literally
+    the same run state**, whatever topological orders the two compilations use -/
+theorem gate_only_rewrite_preserves_compiled_tableau (c c' : Circuit) (hgood : c.Good) (har : Commute.ArityOk c)
+    (hgates : Commute.GateOnly c) (h : Rewrites c c') (seq seq' : List Nat) (hl : c.isLinearExtension seq = true)
+    (hl' : c'.isLinearExtension seq' = true) (d : Det) (script : List Bool) :
+    stabRun c'.ne c'.np d script ((c'.sops seq').map Commute.toCOp) =
+      stabRun c.ne c.np d script ((c.sops seq).map Commute.toCOp) := by
+  have hflat := h.flat_eq hgood
+  have hne : c.ne = c'.ne := by simp only [Circuit.flat, Prod.mk.injEq] at hflat; exact hflat.1.symm
+  have hnp : c.np = c'.np := by simp only [Circuit.flat, Prod.mk.injEq] at hflat; exact hflat.2.1.symm
+  rw [← hne, ← hnp,
+    Commute.stabRun_eq_runSeq c' (h.good hgood) (Commute.Rewrites.arityOk hgood har h)
+      (Commute.Rewrites.gateOnly hgood hgates h) seq' d script c.ne c.np hne hnp,
+    Commute.stabRun_eq_runSeq c hgood har hgates seq d script c.ne c.np rfl rfl]
+  have e := rewrite_preserves_compiled_state (Commute.appTG c.ne c.np) (Commute.appTG_comm c.ne c.np) c c' hgood h
+    seq seq' hl hl' ⟨some { t := Tab.ket0 (c.ne + c.np), writes := [], script := script, rand := [], outs := [] },
+      fun s' h => by cases h; rfl⟩
+  have e' := congrArg Subtype.val e
+  exact (Commute.runSeq_appTG_val _ _ _ _).symm.trans (e'.trans (Commute.runSeq_appTG_val _ _ _ _))
+
 /-! ## 3. library calls do not mutate their inputs -/
 
 /-- the full statement, over a semantics of the Python heap that this development does not model: `exec h call` is
@@ -385,5 +433,43 @@ example (ne np : Nat) (a b : SOp) (h : ∀ r, r ∈ a.regs → r ∉ b.regs) (s 
     (hb : (Commute.appG ne np a (Commute.appG ne np b s)).1 = none) :
     (Commute.appG ne np b (Commute.appG ne np a s)).1 = none := by
   rw [← Commute.appG_comm ne np a b h s]; exact hb
+
+/-- `H e0 ; CNOT e0→p0 ; P p1 ; W[H,P] e0` — gate-only, with two operations on `p1` / `e0` that can be exchanged -/
+def exG : Circuit :=
+  let ops : List Op := [⟨.base .H, [⟨.e, 0⟩], [], false⟩, ⟨.cnot, [⟨.e, 0⟩, ⟨.p, 0⟩], [], false⟩,
+    ⟨.base .P, [⟨.p, 1⟩], [], false⟩, ⟨.wrapper [.H, .P], [⟨.e, 0⟩], [], false⟩]
+  ops.foldl (fun c op => c.addCore op) (Circuit.empty 1 2 0)
+
+example : exG.isLinearExtension [1, 2, 3, 4] = true ∧ exG.isLinearExtension [3, 1, 2, 4] = true ∧
+    exG.isLinearExtension [1, 2, 4, 3] = true ∧ exG.sops [1, 2, 3, 4] ≠ exG.sops [3, 1, 2, 4] := by decide
+
+theorem exG_good : exG.Good := by
+  unfold exG
+  simp only [List.foldl_cons, List.foldl_nil]
+  repeat' (apply Good_addCore)
+  any_goals exact Good_empty 1 2 0
+  all_goals first
+    | (refine ⟨by decide, by decide, by decide, ?_⟩; intro _; exact ⟨⟨_, rfl⟩, rfl⟩)
+    | (refine ⟨by decide, by decide, by decide, ?_⟩; intro h; cases h)
+    | (intro r hr; simp only [List.mem_cons, List.not_mem_nil, or_false] at hr; rcases hr with rfl | rfl <;> decide)
+
+theorem exG_arity : Commute.ArityOk exG :=
+  Commute.arityOk_addCore _ _ (Commute.arityOk_addCore _ _ (Commute.arityOk_addCore _ _
+    (Commute.arityOk_addCore _ _ (Commute.arityOk_empty 1 2 0) trivial) ⟨_, _, rfl⟩) trivial) trivial
+
+theorem exG_gates : Commute.GateOnly exG := by
+  unfold Commute.GateOnly exG
+  simp only [List.foldl_cons, List.foldl_nil, addCore_eq]
+  repeat' (apply NodesSat_insertAt)
+  any_goals exact fun n op h => by simp [Circuit.empty] at h
+  all_goals trivial
+
+/-- the hypotheses of `gate_only_compile_independent_of_topological_order` are met by `exG`, and the run is a real one
+    (`stabRun` returns a state) -/
+example : stabRun 1 2 .zero [] ((exG.sops [1, 2, 3, 4]).map Commute.toCOp) =
+      stabRun 1 2 .zero [] ((exG.sops [3, 1, 2, 4]).map Commute.toCOp) ∧
+    (stabRun 1 2 .zero [] ((exG.sops [1, 2, 3, 4]).map Commute.toCOp)).isSome = true :=
+  ⟨gate_only_compile_independent_of_topological_order exG exG_good exG_arity exG_gates [1, 2, 3, 4] [3, 1, 2, 4]
+    (by decide) (by decide) .zero [], by decide +kernel⟩
 
 end Graphiq.C13
